@@ -190,6 +190,7 @@ class Interp:
         self.decided = {}
         self.lazy_cache = {}
         self.listlen = {}
+        self.ticks = 0
         self.generic_loop_fixed = None
         self.div_zero_fork = False
         self.exc_stack = []
@@ -217,6 +218,8 @@ class Interp:
     def emit(self, kind, name, args=(), kwargs=None, node=None, extra=None, callee=None):
         ev = Ev(kind, name, args, kwargs, self.site(node) if node is not None else None, extra, callee)
         self.trace.append(ev)
+        if name == "hal.waitForNotifierAlarm":
+            self.ticks += 1
         if self.hooks is not None and hasattr(self.hooks, "on_event"):
             self.hooks.on_event(self, ev)
         return ev
@@ -697,14 +700,23 @@ class Interp:
         n = 0
         self.emit("loop_begin", "while", node=s)
         broke = False
+        total = 0
+        ticks = self.ticks
         while True:
+            c0 = len(self.chooser.log)
             if not self.truth(self.eval(s.test, fr), s.test):
                 break
-            n += 1
-            if n > self.MAX_WHILE:
+            # iterations count towards the bound when the loop test needed a choice, or when the previous
+            # iteration passed a pacing point (NotifierDelay wait): loops over known data run to their end
+            symbolic = len(self.chooser.log) != c0 or (total > 0 and self.ticks != ticks)
+            ticks = self.ticks
+            total += 1
+            if symbolic:
+                n += 1
+            if n > self.MAX_WHILE or total > 4096:
                 self.truncated.append(("while", self.site(s)))
                 raise PathAbort("while bound")
-            self.emit("loop_iter", "while", [n], node=s)
+            self.emit("loop_iter", "while", [n], node=s, extra="symbolic" if symbolic else "concrete")
             try:
                 self.exec_block(s.body, fr)
             except BreakEx:
@@ -730,6 +742,10 @@ class Interp:
         if isinstance(it, frozenset):
             return "known", sorted(it, key=repr)
         if isinstance(it, IterV):
+            if it.items is not None:
+                rest = it.items[it.pos:]
+                it.pos = len(it.items)
+                return "known", rest
             if it.consumed:
                 return "known", []
             it.consumed = True
@@ -754,6 +770,30 @@ class Interp:
         if isinstance(it, Obj) and it.cls.name == "_iterview":
             return self.iterate(it.fields["items"], node)
         self.unsupported(f"iteration over {it!r}", node)
+
+    def generic_len(self, items, node):
+        """consistent length of a list of unknown length on this path"""
+        lk = getattr(items, "uid", None)
+        src = getattr(items, "source", None)
+        if src is not None and getattr(src, "uid", None) is not None:
+            lk = src.uid
+        if lk is not None and lk in self.listlen:
+            return self.listlen[lk]
+        if self.generic_loop_fixed is not None:
+            k = self.generic_loop_fixed
+        else:
+            k = self.choose(self.generic_loop_max + 1, ("loop", self.site(node)))
+        if lk is not None:
+            self.listlen[lk] = k
+        return k
+
+    def materialize(self, it, node):
+        """the items of an iterable as a Python list (lists of unknown length get their path-consistent length)"""
+        kind, items = self.iterate(it, node)
+        if kind == "known":
+            return items
+        k = self.generic_len(items, node)
+        return [self.generic_elem(items, i) for i in range(k)]
 
     def generic_elem(self, src, i):
         if isinstance(src, ListOf):
@@ -780,18 +820,7 @@ class Interp:
                     continue
             self.emit("loop_end", "for", node=s, extra="break" if broke else None)
         else:
-            lk = getattr(items, "uid", None)
-            src = getattr(items, "source", None)
-            if src is not None and getattr(src, "uid", None) is not None:
-                lk = src.uid
-            if lk is not None and lk in self.listlen:
-                k = self.listlen[lk]
-            elif self.generic_loop_fixed is not None:
-                k = self.generic_loop_fixed
-            else:
-                k = self.choose(self.generic_loop_max + 1, ("loop", self.site(s)))
-                if lk is not None:
-                    self.listlen[lk] = k
+            k = self.generic_len(items, s)
             self.emit("loop_begin", "for", [k], node=s, extra=("generic", items))
             for i in range(k):
                 self.assign(s.target, self.generic_elem(items, i), fr)
@@ -1027,6 +1056,10 @@ class Interp:
             x, y = self.as_num(a, node), self.as_num(b, node)
             if isinstance(x, int) and isinstance(y, int):
                 return x ^ y
+            if isinstance(x, int) and not isinstance(x, bool) and x == 0:
+                return y
+            if isinstance(y, int) and not isinstance(y, bool) and y == 0:
+                return x
             return App("xor", tuple(sorted((x, y), key=lambda v: repr(vkey(v)))))
         if isinstance(op, (ast.BitAnd, ast.BitOr, ast.LShift, ast.RShift, ast.FloorDiv, ast.Pow)):
             x, y = self.as_num(a, node), self.as_num(b, node)
@@ -1322,6 +1355,11 @@ class Interp:
             self.unsupported("yield from an iterable of unknown length", e)
         self._gen_frame(fr, e).yields.extend(items)
         return None
+
+    def e_NamedExpr(self, e, fr):
+        v = self.eval(e.value, fr)
+        self.assign(e.target, v, fr)
+        return v
 
     def e_Starred(self, e, fr):
         self.unsupported("starred", e)
